@@ -23,6 +23,7 @@ type instance struct {
 	dir     string
 	mem     storage.Storage
 	addr    string // TCP address once Serve is running
+	fault   *faultStorage
 }
 
 var (
@@ -237,6 +238,23 @@ func callAPI(n *nodis.Nodis, method string, toks []string) (out string, raw []re
 	return strings.Join(parts, " "), res
 }
 
+// faultStorage wraps a backend and makes the next `fail` writes fail (C12: a rejected write must not
+// lose data that is still in memory)
+type faultStorage struct {
+	storage.Storage
+	fail int
+}
+
+var errInjected = fmt.Errorf("injected storage failure")
+
+func (f *faultStorage) Set(key *ds.Key, value ds.Value) error {
+	if f.fail > 0 {
+		f.fail--
+		return errInjected
+	}
+	return f.Storage.Set(key, value)
+}
+
 func (st *state) cur() *instance { return st.inst[st.current] }
 
 func (st *state) openInstance(id, backend, dir string, fresh bool) string {
@@ -257,8 +275,12 @@ func (st *state) openInstance(id, backend, dir string, fresh bool) string {
 	default:
 		return "bad-op"
 	}
-	n := nodis.Open(&nodis.Options{Storage: ss}) // GCDuration 0: eviction only when the script says so
-	in := &instance{n: n, backend: backend, dir: dir}
+	fs := &faultStorage{Storage: ss}
+	if !fresh && old != nil && old.fault != nil {
+		fs.fail = old.fault.fail // pending injected failures survive a reopen
+	}
+	n := nodis.Open(&nodis.Options{Storage: fs}) // GCDuration 0: eviction only when the script says so
+	in := &instance{n: n, backend: backend, dir: dir, fault: fs}
 	if backend == "mem" {
 		in.mem = ss
 	}
@@ -309,6 +331,10 @@ func (st *state) apiOp(toks []string) (out string, annot string) {
 	case "reopen": // Close must have been called
 		in := st.cur()
 		return st.openInstance(st.current, in.backend, in.dir, false), ""
+	case "failset": // the next n backend writes fail
+		k, _ := strconv.Atoi(toks[1])
+		st.cur().fault.fail = k
+		return "ok", ""
 	case "gc":
 		now := time.Now().UnixMilli()
 		st.cur().n.VerifGC()
